@@ -320,11 +320,21 @@ Proof. unfold i32, i32_of_u32. change (2 ^ 32) with 4294967296. change (2 ^ 31) 
 Lemma u32_range v : 0 <= v mod 2 ^ 32 < 256 ^ Z.of_nat 4.
 Proof. change (256 ^ Z.of_nat 4) with (2 ^ 32). apply Z.mod_pos_bound. lia. Qed.
 
+(** the wrap bounds of a block (an arbitrary default where InitCorrectionBounds fails: the encoder then
+    fails as a whole, see [int_block_encodable]) *)
+Definition block_bounds (rows : list (list Z)) : wrap_bounds :=
+  match wrap_bounds_enc (concat rows) with Some b => b | None => mk_wrap_bounds 0 0 0 0 0 end.
+(** the encoder refuses a delta-coded block whose value range is >= 2^31-1 (the fix of defect D7) *)
+Definition int_block_encodable (o : int_opts) (rows : list (list Z)) : bool :=
+  match io_pred o with
+  | PNone => true
+  | PDelta => match wrap_bounds_enc (concat rows) with Some _ => true | None => false end
+  end.
 (** what the encoder feeds to the symbol coder (or writes raw) *)
 Definition int_block_src (o : int_opts) (nc : nat) (rows : list (list Z)) : list Z :=
   match io_pred o with
   | PNone => concat rows
-  | PDelta => concat (delta_corr (wrap_bounds_enc (concat rows)) (repeat 0 nc) rows)
+  | PDelta => concat (delta_corr (block_bounds rows) (repeat 0 nc) rows)
   end.
 Definition int_block_syms (o : int_opts) (nc : nat) (rows : list (list Z)) : list Z :=
   map (zigzag_enc 32) (int_block_src o nc rows).
@@ -333,9 +343,10 @@ Definition int_block_hdr (o : int_opts) : bytes :=
 Definition int_block_tail (o : int_opts) (rows : list (list Z)) : bytes :=
   match io_pred o with
   | PNone => []
-  | PDelta => let b := wrap_bounds_enc (concat rows) in enc_le 4 (wb_min b mod 2 ^ 32) ++ enc_le 4 (wb_max b mod 2 ^ 32)
+  | PDelta => let b := block_bounds rows in enc_le 4 (wb_min b mod 2 ^ 32) ++ enc_le 4 (wb_max b mod 2 ^ 32)
   end.
-(** the delta range condition of InitCorrectionBounds (its failure is defect D7) *)
+(** the delta range condition of InitCorrectionBounds: no longer a hypothesis of the theorems — a successful
+    encode implies it ([int_block_enc_ok]) and its failure makes the encode fail ([int_block_range_rejected]) *)
 Definition int_block_ok (o : int_opts) (rows : list (list Z)) : Prop :=
   match io_pred o with
   | PNone => True
@@ -356,6 +367,7 @@ Section IntBlock.
   Lemma enc_int_block_eq o nc rows : rows <> [] ->
     enc_int_block enc_syms o nc rows =
       let syms := int_block_syms o nc rows in
+      if negb (int_block_encodable o rows) then None else
       if io_builtin o then
         match enc_syms (io_method o) (io_level o) (Z.of_nat nc) syms with
         | Some body => Some (int_block_hdr o ++ [1] ++ body ++ int_block_tail o rows)
@@ -365,8 +377,8 @@ Section IntBlock.
                  ++ concat (map (enc_le (Z.to_nat (raw_num_bytes syms))) syms) ++ int_block_tail o rows).
   Proof.
     intros Hne. destruct rows as [|r0 rows']; [congruence|].
-    unfold enc_int_block, int_block_syms, int_block_src, int_block_hdr, int_block_tail.
-    destruct (io_pred o); reflexivity.
+    unfold enc_int_block, int_block_syms, int_block_src, int_block_hdr, int_block_tail, int_block_encodable, block_bounds.
+    destruct (io_pred o); [reflexivity|]. destruct (wrap_bounds_enc (concat (r0 :: rows'))); reflexivity.
   Qed.
 
   Theorem int_block_empty o nc : enc_int_block enc_syms o nc [] = Some [].
@@ -486,19 +498,23 @@ Section IntBlock.
     dec_tail false nc (concat rows) rest = Some (rows, rest).
   Proof. intros. unfold dec_tail. rewrite rows_of_concat by assumption. reflexivity. Qed.
 
-  Lemma wrap_bounds_enc_ok vals : vals <> [] -> Forall i32 vals ->
-    snd (flat_min_max vals) - fst (flat_min_max vals) < 2147483647 ->
-    let b := wrap_bounds_enc vals in
+  Lemma wrap_bounds_enc_range vals b : wrap_bounds_enc vals = Some b ->
+    0 <= snd (flat_min_max vals) - fst (flat_min_max vals) < 2147483647.
+  Proof.
+    unfold wrap_bounds_enc. destruct (flat_min_max vals) as [mn mx]. cbn [fst snd]. unfold wrap_init.
+    destruct ((mx - mn <? 0) || (mx - mn >=? 2147483647)) eqn:E; [discriminate|]. intros _. lia.
+  Qed.
+
+  Lemma wrap_bounds_enc_ok vals b : vals <> [] -> Forall i32 vals -> wrap_bounds_enc vals = Some b ->
     i32 (wb_min b) /\ i32 (wb_max b) /\ 0 <= wb_max b - wb_min b < 2147483647 /\
     wrap_init (wb_min b) (wb_max b) = Some b /\ wrap_dec_init (wb_min b) (wb_max b) = Some b /\
     Forall (fun v => wb_min b <= v <= wb_max b) vals.
   Proof.
-    intros Hne HF Hd. cbv zeta. unfold wrap_bounds_enc.
+    intros Hne HF Hb. pose proof (wrap_bounds_enc_range vals b Hb) as Hd. unfold wrap_bounds_enc in Hb.
     destruct (flat_min_max vals) as [mn mx] eqn:E. cbn [fst snd] in Hd.
     destruct (flat_min_max_i32 vals mn mx HF E) as [Hmn Hmx].
-    destruct (flat_min_max_in vals mn mx Hne E) as (_ & _ & Hle).
-    destruct (wrap_init_spec mn mx Hmn Hmx ltac:(lia)) as (b & Eb & Hbmn & Hbmx & _).
-    rewrite Eb, Hbmn, Hbmx.
+    destruct (wrap_init_spec mn mx Hmn Hmx Hd) as (b' & Eb & Hbmn & Hbmx & _).
+    rewrite Hb in Eb. injection Eb as <-. rewrite Hbmn, Hbmx.
     split; [assumption|]. split; [assumption|]. split; [lia|]. split; [assumption|].
     split.
     - unfold wrap_dec_init. destruct (mn >? mx) eqn:E1; [lia|assumption].
@@ -507,20 +523,18 @@ Section IntBlock.
 
   Lemma dec_tail_delta nc rows rest : (0 < nc)%nat -> rows <> [] ->
     Forall (fun r => length r = nc /\ Forall i32 r) rows ->
-    snd (flat_min_max (concat rows)) - fst (flat_min_max (concat rows)) < 2147483647 ->
-    let b := wrap_bounds_enc (concat rows) in
+    forall b, wrap_bounds_enc (concat rows) = Some b ->
     dec_tail true nc (concat (delta_corr b (repeat 0 nc) rows))
       ((enc_le 4 (wb_min b mod 2 ^ 32) ++ enc_le 4 (wb_max b mod 2 ^ 32)) ++ rest) = Some (rows, rest).
   Proof.
-    intros Hnc Hne HF Hd. cbv zeta.
+    intros Hnc Hne HF b Hd.
     assert (Hlen : Forall (fun r => length r = nc) rows) by (eapply Forall_impl; [|exact HF]; cbv beta; tauto).
     assert (Hi : Forall i32 (concat rows)).
     { apply Forall_concat. eapply Forall_impl; [|exact HF]. cbv beta; tauto. }
     assert (Hcne : concat rows <> []).
     { destruct rows as [|r0 rs]; [congruence|]. apply Forall_cons_iff in HF. destruct HF as [[Hl _] _].
       destruct r0; [cbn in Hl; lia|]. cbn. congruence. }
-    pose proof (wrap_bounds_enc_ok (concat rows) Hcne Hi Hd) as Hb. cbv zeta in Hb.
-    set (b := wrap_bounds_enc (concat rows)) in *. clearbody b.
+    pose proof (wrap_bounds_enc_ok (concat rows) b Hcne Hi Hd) as Hb.
     destruct Hb as (Hmn & Hmx & Hdd & Hinit & Hdinit & Hrange).
     unfold dec_tail. rewrite <- app_assoc.
     rewrite (le_roundtrips 4 (wb_min b mod 2 ^ 32) _ _ (u32_range _) eq_refl).
@@ -545,7 +559,7 @@ Section IntBlock.
   Proof.
     intros HF. unfold int_block_src. destruct (io_pred o).
     - apply length_concat_const. exact HF.
-    - destruct (delta_corr_shape (wrap_bounds_enc (concat rows)) nc rows (repeat 0 nc) HF (repeat_length 0 nc)) as [H1 H2].
+    - destruct (delta_corr_shape (block_bounds rows) nc rows (repeat 0 nc) HF (repeat_length 0 nc)) as [H1 H2].
       rewrite (length_concat_const nc) by exact H1. rewrite H2. reflexivity.
   Qed.
 
@@ -566,12 +580,14 @@ Section IntBlock.
 
   (** THE integer-block theorem *)
   Theorem int_block_roundtrip o nc rows bs rest : (1 <= nc)%nat -> rows <> [] ->
-    Forall (fun r => length r = nc /\ Forall i32 r) rows -> int_block_ok o rows ->
+    Forall (fun r => length r = nc /\ Forall i32 r) rows ->
     (io_builtin o = true -> sym_guard' (Z.of_nat nc) (int_block_syms o nc rows)) ->
     enc_int_block enc_syms o nc rows = Some bs ->
     dec_int_block dec_syms nc (length rows) (bs ++ rest) = Some (rows, rest).
   Proof.
-    intros Hnc Hne HF Hok Hg He.
+    intros Hnc Hne HF Hg He.
+    rewrite enc_int_block_eq in He by exact Hne. cbv zeta in He.
+    destruct (int_block_encodable o rows) eqn:Henc; [|discriminate]. cbn [negb] in He.
     assert (Hlen : Forall (fun r => length r = nc) rows) by (eapply Forall_impl; [|exact HF]; cbv beta; tauto).
     assert (Hi : Forall (Forall i32) rows) by (eapply Forall_impl; [|exact HF]; cbv beta; tauto).
     assert (Hl : length (int_block_syms o nc rows) = (length rows * nc)%nat).
@@ -582,9 +598,10 @@ Section IntBlock.
     (* the tail stage, for both prediction kinds *)
     assert (Htail : dec_tail (match io_pred o with PNone => false | PDelta => true end) nc
                       (int_block_src o nc rows) (int_block_tail o rows ++ rest) = Some (rows, rest)).
-    { unfold int_block_src, int_block_tail, int_block_ok in *. destruct (io_pred o).
+    { unfold int_block_src, int_block_tail, int_block_encodable, block_bounds in *. destruct (io_pred o).
       - apply dec_tail_none; [lia|exact Hlen].
-      - apply dec_tail_delta; [lia|exact Hne|exact HF|exact Hok]. }
+      - destruct (wrap_bounds_enc (concat rows)) as [b|] eqn:Ewb; [|discriminate].
+        apply dec_tail_delta; [lia|exact Hne|exact HF|exact Ewb]. }
     (* the body stage *)
     assert (Hbody : forall body, bs = int_block_hdr o ++ body ->
               dec_body (length rows * nc) nc (body ++ rest) = Some (int_block_syms o nc rows, int_block_tail o rows ++ rest) ->
@@ -596,7 +613,6 @@ Section IntBlock.
         destruct (length rows =? 0)%nat eqn:E2; [apply Nat.eqb_eq in E2; lia|].
         rewrite Hb, Hzz. exact Htail. }
       destruct (io_pred o); cbn [app]; [rewrite dec_int_block_none|rewrite dec_int_block_delta]; exact Hr. }
-    rewrite enc_int_block_eq in He by exact Hne. cbv zeta in He.
     destruct (io_builtin o) eqn:Eb.
     - destruct (enc_syms (io_method o) (io_level o) (Z.of_nat nc) (int_block_syms o nc rows)) as [body|] eqn:Es; [|discriminate].
       injection He as <-. eapply Hbody; [reflexivity|].
@@ -605,6 +621,24 @@ Section IntBlock.
     - injection He as <-. eapply Hbody; [reflexivity|].
       rewrite <- Hl. cbn [app]. rewrite <- app_assoc.
       apply dec_body_raw. unfold int_block_syms. apply zigzag_list_range. apply int_block_src_i32. exact Hi.
+  Qed.
+
+  (** the fix of D7, both ways: a successful encode implies the range condition of InitCorrectionBounds, and a
+      delta-coded block whose range is >= 2^31-1 is refused (before the fix it produced an undecodable stream) *)
+  Theorem int_block_enc_ok o nc rows bs : rows <> [] -> enc_int_block enc_syms o nc rows = Some bs -> int_block_ok o rows.
+  Proof.
+    intros Hne He. rewrite enc_int_block_eq in He by exact Hne. cbv zeta in He.
+    unfold int_block_encodable, int_block_ok in *. destruct (io_pred o); [exact I|].
+    destruct (wrap_bounds_enc (concat rows)) as [b|] eqn:Ewb; [|discriminate].
+    pose proof (wrap_bounds_enc_range _ _ Ewb). lia.
+  Qed.
+
+  Theorem int_block_range_rejected o nc rows : rows <> [] -> io_pred o = PDelta ->
+    snd (flat_min_max (concat rows)) - fst (flat_min_max (concat rows)) >= 2147483647 ->
+    enc_int_block enc_syms o nc rows = None.
+  Proof.
+    intros Hne Hp Hr. destruct (enc_int_block enc_syms o nc rows) as [bs|] eqn:He; [|reflexivity].
+    pose proof (int_block_enc_ok o nc rows bs Hne He) as Hok. unfold int_block_ok in Hok. rewrite Hp in Hok. lia.
   Qed.
 
   (** D11: an attribute without entries writes nothing, and the decoder rejects what follows
@@ -754,12 +788,14 @@ Qed.
 Section IntBlockShape.
   Variable dec_syms : nat -> nat -> bytes -> option (list Z * bytes).
   (** the symbol decoder returns as many symbols as it was asked for *)
-  Hypothesis sym_len : forall n nc bs syms r, dec_syms n nc bs = Some (syms, r) -> length syms = n.
+  Hypothesis sym_len : forall n nc bs syms r, (1 <= nc)%nat -> (exists k, n = (k * nc)%nat) ->
+    dec_syms n nc bs = Some (syms, r) -> length syms = n.
 
-  Lemma dec_body_len nv nc r1 syms r4 : dec_body dec_syms nv nc r1 = Some (syms, r4) -> length syms = nv.
+  Lemma dec_body_len nv nc r1 syms r4 : (1 <= nc)%nat -> (exists k, nv = (k * nc)%nat) ->
+    dec_body dec_syms nv nc r1 = Some (syms, r4) -> length syms = nv.
   Proof.
-    unfold dec_body. destruct r1 as [|comp r2]; [discriminate|].
-    destruct (comp >? 0); [apply sym_len|].
+    intros Hnc Hk. unfold dec_body. destruct r1 as [|comp r2]; [discriminate|].
+    destruct (comp >? 0); [apply sym_len; assumption|].
     destruct r2 as [|nb r3]; [discriminate|].
     destruct (nb =? 4); [apply dec_raw_vals_len|].
     destruct (_ <? _); [discriminate|]. destruct (_ <? _); [discriminate|]. apply dec_raw_vals_len.
@@ -784,7 +820,8 @@ Section IntBlockShape.
     unfold dec_rest. destruct (nc =? 0)%nat eqn:E1; [discriminate|]. destruct (n =? 0)%nat; [discriminate|].
     destruct (dec_body dec_syms (n * nc) nc r1) as [[syms r4]|] eqn:Eb; [|discriminate].
     apply dec_tail_shape; [apply Nat.eqb_neq in E1; lia|].
-    rewrite map_length. apply (dec_body_len _ _ _ _ _ Eb).
+    apply Nat.eqb_neq in E1. assert (Hnc : (1 <= nc)%nat) by lia.
+    rewrite map_length. apply (dec_body_len _ _ _ _ _ Hnc (ex_intro _ n eq_refl) Eb).
   Qed.
 
   Lemma dec_int_block_cases nc n bs res : dec_int_block dec_syms nc n bs = Some res ->
